@@ -15,16 +15,16 @@ cp -r $V/.build $D/build
 find $D/build \( -name '*.o' -o -name '*.a' -o -name 'hgv_*' \) -print0 | xargs -0 touch
 sleep 1
 git -C $D/repo apply $V/seeded/$S/patch.diff || { echo "patch does not apply"; exit 2; }
-# header changes are not tracked by the copied dependency files: touch every .cpp that includes a changed header
+# header changes are not tracked by the copied dependency files: touch every repo .cpp that includes a changed header
+# (in the scratch worktree) and drop the scratch copies of the harness objects (never touch /verif/harness itself:
+# that would make the main build relink its drivers under running checks)
 for h in $(git -C $D/repo diff --name-only | grep '\.h$'); do
   b=$(basename $h)
-  grep -rl --include='*.cpp' --include='*.h' "$b" $D/repo/src $D/repo/include $V/harness 2>/dev/null | while read f; do
-    case $f in *.cpp) touch $f;; esac
-  done
-  # one more level: headers that include the changed header
+  grep -rl --include='*.cpp' "$b" $D/repo/src 2>/dev/null | xargs -r touch
   for h2 in $(grep -rl --include='*.h' "$b" $D/repo/include | xargs -n1 basename 2>/dev/null | sort -u); do
-    grep -rl --include='*.cpp' "$h2" $D/repo/src $V/harness 2>/dev/null | xargs -r touch
+    grep -rl --include='*.cpp' "$h2" $D/repo/src 2>/dev/null | xargs -r touch
   done
+  rm -f $D/build/obj/harness__*.o
 done
 git -C $D/repo diff --name-only | grep '\.cpp$' | while read f; do touch $D/repo/$f; done
 for C in "$@"; do
